@@ -1616,7 +1616,7 @@ func runC03(c *Ctx) {
 					continue
 				}
 				for _, a := range cl.Args {
-					if re, _ := df.Resolve(a, cpt); re != nil {
+					if re, _ := df.ResolveToCall(a, cpt); re != nil {
 						if rc, isCall := ast.Unparen(re).(*ast.CallExpr); isCall && strings.HasSuffix(rawKey(rc.Fun), ".ensureOrdering") {
 							okOrder = true
 						}
